@@ -737,6 +737,15 @@ def pattern(src):
     return p
 
 
+def match_any(t, pats):
+    """Bindings of the first pattern in `pats` that matches t, else None ({} is a match)."""
+    for p in pats:
+        b = match(t, pattern(p))
+        if b is not None:
+            return b
+    return None
+
+
 def find(t, pat):
     """First sub-term of t matching pat -> (subterm, bindings) or None."""
     p = pattern(pat)
